@@ -135,7 +135,20 @@ func runFile(fset *token.FileSet, f *ast.File) (res result) {
 		h := header(reflect.ValueOf(d)).Interface()
 		a, b := show(fset, h), show(fset, g2.Decls[i])
 		if a != b {
-			res.verdict = fmt.Sprintf("decl %d: header differs: %q vs %q", i, clip(a), clip(b))
+			// root cause R1 (known finding): unnamed fields come back with a non-nil empty Names slice, which
+			// go/printer tells from nil (a single unnamed result gets parentheses).  Only if undoing exactly
+			// that makes the texts equal is the difference attributed to R1.
+			ast.Inspect(g2.Decls[i], func(n ast.Node) bool {
+				if fl, ok := n.(*ast.Field); ok && fl.Names != nil && len(fl.Names) == 0 {
+					fl.Names = nil
+				}
+				return true
+			})
+			if c := show(fset, g2.Decls[i]); c == a {
+				res.verdict = fmt.Sprintf("nonnil-names: decl %d: %q vs %q", i, clip(a), clip(b))
+			} else {
+				res.verdict = fmt.Sprintf("decl %d: header differs: %q vs %q", i, clip(a), clip(b))
+			}
 			return
 		}
 	}
